@@ -200,6 +200,17 @@ async fn run_c(seed: u64, cfg: &CCfg, steps: &[CStep]) -> VResult<()> {
                         }
                     }
                     compare(&got, &frames, "file_next")?;
+                    // the same reader moved back to the start (it has seen the end of the stream) reads the same records again
+                    r.seek_start(0).await.map_err(|e| Violation::new("harness.seek", e.to_string()))?;
+                    let mut again = vec![];
+                    for _ in 0..frames.len() + 3 {
+                        match r.read_next().await {
+                            Ok(v) => again.push(v),
+                            Err(_) => break,
+                        }
+                    }
+                    compare(&again, &frames, "file_next (second pass after seek_start)")?;
+                    sim::count("probe.file_reader_second_pass", 1);
                 }
                 "file_pos" => {
                     let mut r = FileMessageReader::new(file, 0);
@@ -226,6 +237,13 @@ async fn run_c(seed: u64, cfg: &CCfg, steps: &[CStep]) -> VResult<()> {
                     vensure!(count as usize == frames.len(), "C20.count", "read_to_end counted {} records, {} were written", count, frames.len());
                     if !frames.is_empty() {
                         vensure!(last.get_end_position() == data_len as u64, "C20.count", "read_to_end ends at {} but the data ends at {}", last.get_end_position(), data_len);
+                        // and after the end has been seen: positions are still found from the start
+                        let i = rng.below(frames.len() as u64) as usize;
+                        r.seek_start(0).await.map_err(|e| Violation::new("harness.seek", e.to_string()))?;
+                        match r.read_index_position(i).await {
+                            Ok(p) => vensure!(p.position == offs[i].0 && p.len == offs[i].1, "C20.position", "after read_to_end and seek_start(0), read_index_position({}) = ({},{}) but record {} is at ({},{})", i, p.position, p.len, i, offs[i].0, offs[i].1),
+                            Err(e) => vfail!("C20.position", "after read_to_end and seek_start(0), read_index_position({}) failed: {} (record exists at {})", i, e, offs[i].0),
+                        }
                     }
                 }
                 "file_chunks" => {
